@@ -6,8 +6,14 @@
 // (2) every update equals clamp(lambda + alpha/(1+gamma n) N grad_S Phi(lambda) / D, 0, upper bound) with D = data part +
 // 2 x surrogate curvature of the prior, thresholded as documented; (3) 0 <= iterates <= upper bound, D > 0;
 // (4) restart: for EVERY k a FRESH reconstruction (own temp prefix) resumes at sub-iteration k+1 from the file saved after k.
+// Extension (4'): object-reuse histories (c07_recon_common.h, "hist"): resumes on the SAME OSSPS object (the class
+// documentation: "you have to call set_up() before running a new reconstruction", which the harness does), a second run on the
+// same object after every parameter was changed (setters; relaxation / upper bound / positivity through the parser, which is
+// their only public interface), and an objective function used by an OSMAPOSL object before.  The denominator file written by
+// every set_up must equal the one of the first set_up, and in histories 2/3 a run with fresh objects must reproduce the run.
 #include "c07_recon_common.h"
 #include "stir/OSSPS/OSSPSReconstruction.h"
+#include "stir/OSMAPOSL/OSMAPOSLReconstruction.h"
 #include "stir/recon_buildblock/PriorWithParabolicSurrogate.h"
 #include <sstream>
 #include <iomanip>
@@ -62,12 +68,37 @@ decode(const json& c)
   k.prior.kind = c["prior"].get<int>();
   k.prior.kappa = c["kappa"].get<bool>();
   k.prior.kseed = c["dseed"].get<uint64_t>() ^ 0xabcdefULL;
+  k.prior.recompute = k.prior.kind == 1 && c.value("recompute", false); // recompute_penalty_term_in_denominator on
   k.alpha = float(c["alpha"].get<double>());
   k.gamma = float(c["gamma"].get<double>());
   k.bounded = c["ub_rel"].get<double>() > 0;
   k.enforce = c["enforce"].get<bool>();
   k.upper_bound = double(std::numeric_limits<float>::max());
+  k.n_sub = c.value("n_sub", k.n_sub); // first runs of a history: a number of sub-iterations, not of full iterations
   return k;
+}
+
+//! the parts of the configuration that are relative to the scale of the problem
+void
+finish_cfg(Cfg& k, const json& c, const Fixture& F)
+{
+  if (k.bounded)
+    k.upper_bound = double(float(c["ub_rel"].get<double>() * vmax(F.truth)));
+  if (k.prior.kind != 0)
+    {
+      // penalisation factor relative to the data part of the denominator: spans negligible .. dominating
+      const std::vector<double> h = back_subset(F, F.rowsum, -1);
+      double mean_h = 0;
+      long cnt = 0;
+      for (double v : h)
+        if (v > 0)
+          {
+            mean_h += v;
+            ++cnt;
+          }
+      mean_h = cnt ? mean_h / double(cnt) : 1.;
+      k.prior.beta = float(std::pow(10., c["beta_exp"].get<double>()) * mean_h / std::max(1., c["count_max"].get<double>()) / 40.);
+    }
 }
 
 //! reference state of one OSSPS run (what the documented algorithm keeps between sub-iterations)
@@ -176,12 +207,19 @@ fmt(double v)
   return s.str();
 }
 
-std::string
-run_recon(const Fixture& F, const Cfg& k, const std::string& prefix, const shared_ptr<target_type>& target, int start, Run& out, bool* setup_rejected)
+//! one OSSPS object together with the objective function it uses and what that objective function is configured as
+struct Sps
 {
-  *setup_rejected = false;
-  OSSPSReconstruction<target_type> recon;
-  recon.set_objective_function_sptr(make_objective(F, k.prior, k.use_subsens));
+  shared_ptr<OSSPSReconstruction<target_type>> recon;
+  shared_ptr<objective_type> obj;
+  ObjSpec ospec;
+};
+
+//! all parameters of the reconstruction object (fresh or used: the same calls; the upper bound is always written so that a
+//! second parse of a used object goes back to "max float")
+std::string
+configure(OSSPSReconstruction<target_type>& recon, const Cfg& k, const std::string& prefix, int start)
+{
   recon.set_output_filename_prefix(prefix);
   recon.set_output_file_format_ptr(float_interfile());
   {
@@ -190,9 +228,8 @@ run_recon(const Fixture& F, const Cfg& k, const std::string& prefix, const share
     par << "OSSPSParameters :=\n"
         << "enforce initial positivity condition := " << (k.enforce ? 1 : 0) << "\n"
         << "relaxation parameter := " << fmt(double(k.alpha)) << "\n"
-        << "relaxation gamma := " << fmt(double(k.gamma)) << "\n";
-    if (k.bounded)
-      par << "upper bound := " << fmt(k.upper_bound) << "\n";
+        << "relaxation gamma := " << fmt(double(k.gamma)) << "\n"
+        << "upper bound := " << fmt(k.upper_bound) << "\n";
     par << "End :=\n";
     if (!recon.parse(par))
       return "parsing the OSSPS parameters failed";
@@ -203,6 +240,15 @@ run_recon(const Fixture& F, const Cfg& k, const std::string& prefix, const share
   recon.set_start_subset_num(k.start_subset);
   recon.set_save_interval(1);
   recon.set_randomise_subset_order(false);
+  return "";
+}
+
+//! set_up (+ the denominator file it writes) + reconstruct + read every saved iterate back
+std::string
+execute(OSSPSReconstruction<target_type>& recon, const Fixture& F, const Cfg& k, const std::string& prefix, const shared_ptr<target_type>& target, int start,
+        Run& out, bool* setup_rejected)
+{
+  *setup_rejected = false;
   try
     {
       if (recon.set_up(target) != Succeeded::yes)
@@ -228,6 +274,36 @@ run_recon(const Fixture& F, const Cfg& k, const std::string& prefix, const share
     out.iter[std::size_t(j)] = read_image(F, cat(prefix, "_", j, ".hv"));
   out.final_in_memory = target;
   return "";
+}
+
+//! one reconstruction with FRESH objects; `keep` receives the objects (for histories that go on using them)
+std::string
+run_recon(const Fixture& F, const Cfg& k, const std::string& prefix, const shared_ptr<target_type>& target, int start, Run& out, bool* setup_rejected,
+          Sps* keep = nullptr)
+{
+  *setup_rejected = false;
+  Sps o;
+  o.recon.reset(new OSSPSReconstruction<target_type>);
+  o.ospec = final_objspec(F, k.prior, k.use_subsens);
+  o.obj = make_objective(F, k.prior, k.use_subsens);
+  o.recon->set_objective_function_sptr(o.obj);
+  const std::string pm = configure(*o.recon, k, prefix, start);
+  if (!pm.empty())
+    return pm;
+  if (keep)
+    *keep = o;
+  return execute(*o.recon, F, k, prefix, target, start, out, setup_rejected);
+}
+
+//! resume on an object that has already run: only what a user changes for a resume (start sub-iteration, output prefix);
+//! set_up is called again, as the class documentation demands before every new reconstruction
+std::string
+resume_same_object(Sps& o, const Fixture& F, const Cfg& k, const std::string& prefix, const shared_ptr<target_type>& target, int start, Run& out,
+                   bool* setup_rejected)
+{
+  o.recon->set_start_subiteration_num(start);
+  o.recon->set_output_filename_prefix(prefix);
+  return execute(*o.recon, F, k, prefix, target, start, out, setup_rejected);
 }
 
 Result
@@ -272,24 +348,11 @@ check(const json& c_in)
   Cfg k = decode(c);
   if (!k.use_subsens && !balanced(F.vg_per_subset))
     return Result::reject("unbalanced subsets without subset sensitivities (set_up calls error())");
-  if (k.bounded)
-    k.upper_bound = double(float(c["ub_rel"].get<double>() * vmax(F.truth)));
-  if (k.prior.kind != 0)
-    {
-      // penalisation factor relative to the data part of the denominator: spans negligible .. dominating
-      const std::vector<double> h = back_subset(F, F.rowsum, -1);
-      double mean_h = 0;
-      long cnt = 0;
-      for (double v : h)
-        if (v > 0)
-          {
-            mean_h += v;
-            ++cnt;
-          }
-      mean_h = cnt ? mean_h / double(cnt) : 1.;
-      k.prior.beta = float(std::pow(10., c["beta_exp"].get<double>()) * mean_h / std::max(1., c["count_max"].get<double>()) / 40.);
-    }
+  finish_cfg(k, c, F);
   const int n = k.n_sub;
+  const int hist = c.value("hist", int(HIST_FRESH));
+  const json hj = c.value("h", json::object());
+  const std::string hnote = hist == HIST_FRESH ? std::string() : cat("[history: ", hist_name(hist), "] ");
 
   // reference data part of the denominator: - (approximate Hessian) 1 = sum_b P_b^T [ (P 1)_b / (y_b / n_b^2) ] with the
   // documented thresholds of divide_and_truncate (numerator = P 1, per viewgram)
@@ -305,13 +368,101 @@ check(const json& c_in)
 
   // ---------------- run A ----------------
   Run A;
-  {
-    bool rej;
-    const std::string msg = run_recon(F, k, tmp.path + "/A", image_from_vec(F, F.start), 1, A, &rej);
-    if (rej)
-      return Result::reject("run A " + msg);
-    VF_CHECK(msg.empty(), "run A: ", msg);
-  }
+  Sps R; // the objects of run A
+  if (hist == HIST_FRESH || hist == HIST_SAME_OBJECT_RESUME)
+    {
+      bool rej;
+      const std::string msg = run_recon(F, k, tmp.path + "/A", image_from_vec(F, F.start), 1, A, &rej, &R);
+      if (rej)
+        return Result::reject("run A " + msg);
+      VF_CHECK(msg.empty(), "run A: ", msg);
+    }
+  else if (hist == HIST_SECOND_RUN)
+    {
+      // first run: other settings (cfg0: the same keys as the case, overriding) on other data; its results are not asserted
+      const json cfg0 = hj.value("cfg0", json::object());
+      json c0 = c;
+      for (auto& el : cfg0.items())
+        c0[el.key()] = el.value();
+      Cfg k0 = decode(c0);
+      finish_cfg(k0, c0, F);
+      // soundness: without subset sensitivities set_up calls error() for unbalanced subsets
+      if (!k0.use_subsens && !balanced_number_of_subsets(F, k0.N))
+        return Result::reject("first run of the history: unbalanced subsets without subset sensitivities (set_up calls error())");
+      const AltData alt = make_alt_data(F, c["dseed"].get<uint64_t>());
+      ObjSpec o0 = final_objspec(F, k0.prior, k0.use_subsens);
+      o0.data = hj.value("data0", 0);
+      o0.add = hj.value("add0", o0.add);
+      o0.norm = hj.value("norm0", o0.norm);
+      R.recon.reset(new OSSPSReconstruction<target_type>);
+      R.ospec = o0;
+      R.obj = make_objective_spec(F, o0, alt);
+      R.recon->set_objective_function_sptr(R.obj);
+      {
+        const std::string pm = configure(*R.recon, k0, tmp.path + "/P", 1);
+        VF_CHECK(pm.empty(), "first run of the history: ", pm);
+        Run P;
+        bool rej;
+        const std::string msg = execute(*R.recon, F, k0, tmp.path + "/P", image_from_vec(F, F.start), 1, P, &rej);
+        if (rej)
+          return Result::reject("first run of the history " + msg);
+        VF_CHECK(msg.empty(), "first run of the history: ", msg);
+      }
+      // now the settings of the case: objective function through its setters, reconstruction object through setters + parser
+      const ObjSpec o1 = final_objspec(F, k.prior, k.use_subsens);
+      reconfigure_objective(*R.obj, F, o0, o1, alt);
+      R.ospec = o1;
+      const std::string pm = configure(*R.recon, k, tmp.path + "/A", 1);
+      VF_CHECK(pm.empty(), hnote, "second configuration of the object: ", pm);
+      bool rej;
+      const std::string msg = execute(*R.recon, F, k, tmp.path + "/A", image_from_vec(F, F.start), 1, A, &rej);
+      VF_CHECK(!rej && msg.empty(), hnote, "run A (second run of the object) failed: ", msg);
+      stats().count("second runs on a used OSSPS object");
+    }
+  else
+    {
+      // the objective function is first used by an OSMAPOSL object (balanced number of subsets: OSMAPOSL::set_up calls error()
+      // otherwise), then by the OSSPS object of the checked run
+      const int N0 = hj.value("subsets0", 1);
+      if (!balanced_number_of_subsets(F, N0))
+        return Result::reject("first run of the history: unbalanced subsets (OSMAPOSL::set_up calls error())");
+      R.ospec = final_objspec(F, k.prior, k.use_subsens);
+      R.obj = make_objective(F, k.prior, k.use_subsens);
+      {
+        OSMAPOSLReconstruction<target_type> pre;
+        pre.set_objective_function_sptr(R.obj);
+        pre.set_output_filename_prefix(tmp.path + "/P");
+        pre.set_output_file_format_ptr(float_interfile());
+        pre.set_num_subsets(N0);
+        pre.set_num_subiterations(hj.value("n_sub0", 1));
+        pre.set_save_interval(hj.value("n_sub0", 1));
+        shared_ptr<target_type> t = image_from_vec(F, F.start);
+        bool ok = false;
+        try
+          {
+            ok = pre.set_up(t) == Succeeded::yes;
+          }
+        catch (const stir_verif::AssertionFailure&)
+          {
+            throw;
+          }
+        catch (const std::exception& e)
+          {
+            return Result::reject(std::string("first run of the history (OSMAPOSL) set_up: ") + e.what());
+          }
+        if (!ok)
+          return Result::reject("first run of the history (OSMAPOSL): set_up returned Succeeded::no");
+        VF_CHECK(pre.reconstruct(t) == Succeeded::yes, "first run of the history (OSMAPOSL): reconstruct returned Succeeded::no");
+      }
+      R.recon.reset(new OSSPSReconstruction<target_type>);
+      R.recon->set_objective_function_sptr(R.obj);
+      const std::string pm = configure(*R.recon, k, tmp.path + "/A", 1);
+      VF_CHECK(pm.empty(), hnote, pm);
+      bool rej;
+      const std::string msg = execute(*R.recon, F, k, tmp.path + "/A", image_from_vec(F, F.start), 1, A, &rej);
+      VF_CHECK(!rej && msg.empty(), hnote, "run A (objective function used by OSMAPOSL before) failed: ", msg);
+      stats().count("runs on an objective function used by an OSMAPOSL object before");
+    }
   std::vector<std::vector<double>> lam(std::size_t(n) + 1);
   lam[0] = F.start;
   bool lifted0 = false;
@@ -324,12 +475,12 @@ check(const json& c_in)
   // (1) precomputed denominator (data part)
   const std::vector<double> D0_stir = image_vec(F, *A.denominator);
   for (std::size_t v = 0; v < D0_stir.size(); ++v)
-    VF_CHECK(std::isfinite(D0_stir[v]) && D0_stir[v] >= 0., "precomputed denominator has value ", D0_stir[v], " at voxel ", v);
+    VF_CHECK(std::isfinite(D0_stir[v]) && D0_stir[v] >= 0., hnote, "precomputed denominator has value ", D0_stir[v], " at voxel ", v);
   if (!d0_flags.ambiguous)
     {
       // observed maximum over seeds 3.2e-5 (float accumulation of P 1 / y over all bins); asserted 5e-4
       const Result res = compare("precomputed denominator vs -(approximate Hessian) 1", D0_stir, D0, vmax(D0), 5e-4, "max rel err precomputed denominator",
-                                 proj_note);
+                                 hnote + proj_note);
       if (res.failed())
         return res;
     }
@@ -340,11 +491,16 @@ check(const json& c_in)
   const double ub = double(float(k.upper_bound));
   for (int j = 1; j <= n; ++j)
     for (std::size_t v = 0; v < lam[std::size_t(j)].size(); ++v)
-      VF_CHECK(std::isfinite(lam[std::size_t(j)][v]) && lam[std::size_t(j)][v] >= 0. && lam[std::size_t(j)][v] <= ub, "iterate ", j, " has value ", lam[std::size_t(j)][v],
+      VF_CHECK(std::isfinite(lam[std::size_t(j)][v]) && lam[std::size_t(j)][v] >= 0. && lam[std::size_t(j)][v] <= ub, hnote, "iterate ", j, " has value ", lam[std::size_t(j)][v],
                " at voxel ", v, " outside [0, ", ub, "]");
 
   // (2) every update against the documented formula
-  shared_ptr<GeneralisedPrior<target_type>> ref_prior = make_prior(F, k.prior);
+  // the reference takes gradient and surrogate curvature from a shipped QuadraticPrior in both modes: with
+  // recompute_penalty_term_in_denominator on (QuadraticPriorRecompute in the objects under test) the class adds 2 x curvature to
+  // the untouched data part at every sub-iteration, which for a quadratic prior is the same D = max(D0 + 2 curvature, threshold)
+  PriorSpec ref_spec = k.prior;
+  ref_spec.recompute = false;
+  shared_ptr<GeneralisedPrior<target_type>> ref_prior = make_prior(F, ref_spec);
   if (ref_prior)
     ref_prior->set_up(F.image);
   bool any_hi = false, any_lo = false, any_cap = d0_flags.cap_active;
@@ -365,15 +521,46 @@ check(const json& c_in)
         }
       // tolerance relative to max(|lambda| + |step|): float projections vs double; observed maximum over seeds 1.9e-5; asserted 3e-4
       const Result res = compare("OSSPS update", lam[std::size_t(j)], r.next, r.scale, 3e-4, "max rel err OSSPS update",
-                                 cat("(sub-iteration ", j, ", subset ", (j + k.start_subset - 1) % k.N, " of ", k.N, ", relaxation n=", j / k.N, ")", proj_note));
+                                 cat(hnote, "(sub-iteration ", j, ", subset ", (j + k.start_subset - 1) % k.N, " of ", k.N, ", relaxation n=", j / k.N, ")", proj_note));
       if (res.failed())
         return res;
       stats().count("update steps checked by formula");
     }
 
+  // ---------------- (4') histories 2 and 3: a run with FRESH objects and the settings of the case reproduces run A ----------------
+  if (hist == HIST_SECOND_RUN || hist == HIST_SHARED_OBJECTIVE)
+    {
+      Run B0;
+      bool rej;
+      const std::string msg = run_recon(F, k, tmp.path + "/B0", image_from_vec(F, F.start), 1, B0, &rej);
+      VF_CHECK(!rej && msg.empty(), "run with fresh objects failed although the run on used objects succeeded: ", msg);
+      VF_CHECK(image_vec(F, *B0.denominator) == D0_stir, hnote, "the precomputed denominator of the run on used objects differs from the one of a run on fresh objects");
+      for (int j = 1; j <= n; ++j)
+        {
+          const Result res = compare("run on used objects vs run on freshly configured objects", lam[std::size_t(j)], image_vec(F, *B0.iter[std::size_t(j)]),
+                                     vmax(lam[std::size_t(j)]), 1e-6, "max rel diff used objects vs fresh objects", cat(hnote, "(iterate ", j, " of ", n, ", N=", k.N, ")"));
+          if (res.failed())
+            return res;
+        }
+      stats().count("runs on used objects compared with a run on fresh objects");
+    }
+
   // ---------------- (4) restart at every k ----------------
+  // hist 0: fresh objects; hist 1-3: the same reconstruction object again (set_up is called again, as the class demands).
+  // Histories 2 and 3 resume at a sample of the interruption points unless "k_all" (thorough tier).
+  std::vector<int> ks;
+  if (hist == HIST_FRESH || hist == HIST_SAME_OBJECT_RESUME || hj.value("k_all", false))
+    for (int kk = 1; kk < n; ++kk)
+      ks.push_back(kk);
+  else if (n > 1)
+    for (const auto& pk : hj.value("k_pick", std::vector<int>{ 0, 1 }))
+      {
+        const int kk = 1 + (((pk % (n - 1)) + (n - 1)) % (n - 1));
+        if (std::find(ks.begin(), ks.end(), kk) == ks.end())
+          ks.push_back(kk);
+      }
   long compared = 0;
-  for (int kk = 1; kk < n; ++kk)
+  for (int kk : ks)
     {
       const std::vector<double>& lk = lam[std::size_t(kk)];
       bool has_zero = false, nonident_nonzero = false;
@@ -395,9 +582,27 @@ check(const json& c_in)
       Run B;
       bool rej;
       shared_ptr<target_type> start_img = read_image(F, cat(tmp.path, "/A_", kk, ".hv"));
-      const std::string msg = run_recon(F, k, cat(tmp.path, "/B", kk), start_img, kk + 1, B, &rej);
-      VF_CHECK(msg.empty(), "resumed run (start at sub-iteration ", kk + 1, ") failed: ", msg);
-      VF_CHECK(image_vec(F, *B.denominator) == D0_stir, "the precomputed denominator of the resumed run differs from the one of the uninterrupted run");
+      const std::string msg = hist == HIST_FRESH ? run_recon(F, k, cat(tmp.path, "/B", kk), start_img, kk + 1, B, &rej)
+                                                 : resume_same_object(R, F, k, cat(tmp.path, "/B", kk), start_img, kk + 1, B, &rej);
+      VF_CHECK(msg.empty(), hnote, "resumed run (start at sub-iteration ", kk + 1, ") failed: ", msg);
+      if (hist != HIST_FRESH)
+        stats().count("resumes on the same reconstruction object");
+      {
+        // every set_up computes the data part of the denominator from scratch (documented: "call set_up() before running a
+        // new reconstruction"): the file it writes must be the one of the first set_up
+        const std::vector<double> DB = image_vec(F, *B.denominator);
+        double worst = 0;
+        std::size_t wv = 0;
+        for (std::size_t v = 0; v < DB.size(); ++v)
+          if (std::fabs(DB[v] - D0_stir[v]) > worst)
+            {
+              worst = std::fabs(DB[v] - D0_stir[v]);
+              wv = v;
+            }
+        VF_CHECK(DB == D0_stir, hnote, "the precomputed denominator of the resumed run (start at sub-iteration ", kk + 1,
+                 hist == HIST_FRESH ? ", fresh objects" : ", on the object that has run before",
+                 ") differs from the one of the uninterrupted run: ", DB[wv], " vs ", D0_stir[wv], " at voxel ", wv);
+      }
       for (int j = kk + 1; j <= n; ++j)
         {
           const std::vector<double> b = image_vec(F, *B.iter[std::size_t(j)]);
@@ -416,7 +621,8 @@ check(const json& c_in)
           for (int j = kk + 1; j <= n; ++j)
             {
               const Result res = compare("restart", image_vec(F, *B.iter[std::size_t(j)]), lam[std::size_t(j)], vmax(lam[std::size_t(j)]), 1e-6, "max rel diff restart",
-                                         cat("(resumed at sub-iteration ", kk + 1, " from the image saved after ", kk, ", iterate ", j, " of ", n, ", N=", k.N,
+                                         cat(hnote, "(resumed at sub-iteration ", kk + 1, " from the image saved after ", kk, ", iterate ", j, " of ", n, ", N=", k.N,
+                                             hist == HIST_FRESH ? ", fresh objects" : ", on the object that has run before",
                                              rezero ? ", saved image non-zero at voxels no bin sees: finding C08-F1" : "", ")"));
               if (res.failed())
                 return res;
@@ -443,12 +649,17 @@ check(const json& c_in)
         }
     }
   stats().count("restarts compared with run A", compared);
-  stats().count("restarts run", n - 1);
+  stats().count("restarts run", long(ks.size()));
 
   // classes
+  stats().cls(cat("history: ", hist_name(hist)));
   stats().cls(k.N == 1 ? "N=1" : (k.N <= 4 ? "N=2-4" : "N>=5"));
   stats().cls(balanced(F.vg_per_subset) ? "balanced subsets" : "unbalanced subsets");
   stats().cls(cat("prior ", k.prior.kind == 0 ? "none" : (k.prior.kappa ? "quadratic with kappa" : "quadratic")));
+  if (k.prior.recompute)
+    stats().cls(n >= 2 ? (k.prior.kappa ? "recompute_penalty_term_in_denominator on, >= 2 sub-iterations, with kappa"
+                                        : "recompute_penalty_term_in_denominator on, >= 2 sub-iterations, without kappa")
+                       : "recompute_penalty_term_in_denominator on, 1 sub-iteration");
   stats().cls(k.bounded ? (any_hi ? "upper bound set and active" : "upper bound set") : "upper bound = max float");
   if (any_lo)
     stats().cls("lower bound 0 active");
@@ -522,6 +733,73 @@ gen(Src& s, int size)
   c["kappa"] = s.coin();
   c["beta_exp"] = s.real(-2., 1.5);
   c["enforce"] = s.chance(1, 4);
+  // recompute_penalty_term_in_denominator on (property text): a quadratic prior whose surrogate curvature is reported to
+  // depend on the argument (QuadraticPriorRecompute), half of the prior cases
+  c["recompute"] = s.coin();
+  // object-reuse histories (c07_recon_common.h): half of the cases use fresh objects for every run, as before
+  {
+    const int hr = int(s.range(0, 15));
+    const int hist = hr < 8 ? HIST_FRESH : (hr < 11 ? HIST_SAME_OBJECT_RESUME : (hr < 14 ? HIST_SECOND_RUN : HIST_SHARED_OBJECTIVE));
+    c["hist"] = hist;
+    json h = json::object();
+    std::vector<int> bal{ 1 };
+    if (hist == HIST_SECOND_RUN || hist == HIST_SHARED_OBJECTIVE)
+      try
+        {
+          bal = balanced_subsets(c, MAX_Z);
+        }
+      catch (...)
+        {
+          bal = { 1 };
+        }
+    if (hist == HIST_SECOND_RUN)
+      {
+        // the first run's settings: every parameter is changed with probability 1/2
+        json c0 = json::object();
+        const bool subsens0 = s.coin() ? !c["use_subsens"].get<bool>() : c["use_subsens"].get<bool>();
+        c0["use_subsens"] = subsens0;
+        if (s.coin())
+          c0["subsets"] = subsens0 ? int(s.range(1, views)) : s.pick(bal); // without subset sensitivities set_up error()s for unbalanced subsets
+        else if (!subsens0)
+          c0["subsets"] = s.pick(bal);
+        c0["n_sub"] = int(s.range(1, 3));
+        if (s.coin())
+          c0["start_subset"] = int(s.range(0, 23));
+        if (s.coin())
+          {
+            c0["prior"] = s.coin() ? 0 : 1;
+            c0["kappa"] = s.coin();
+          }
+        if (s.coin())
+          c0["beta_exp"] = s.real(-2., 1.5);
+        if (s.coin())
+          c0["recompute"] = !c["recompute"].get<bool>();
+        if (s.coin())
+          {
+            c0["alpha"] = double(s.range(1, 32)) / 16.;
+            c0["gamma"] = s.chance(1, 4) ? 0. : double(s.range(1, 16)) / 16.;
+          }
+        if (s.coin())
+          c0["ub_rel"] = s.coin() ? 0. : s.pick(std::vector<double>{ 0.3, 0.7, 1.2 });
+        if (s.coin())
+          c0["enforce"] = !c["enforce"].get<bool>();
+        h["cfg0"] = c0;
+        h["data0"] = int(s.range(0, 1));
+        h["add0"] = s.coin() ? (c["use_add"].get<bool>() ? 1 : 0) : int(s.pick(std::vector<int>{ 0, 2 }));
+        h["norm0"] = s.coin() ? (c["use_norm"].get<bool>() ? 1 : 0) : int(s.pick(std::vector<int>{ 0, 2 }));
+      }
+    if (hist == HIST_SHARED_OBJECTIVE)
+      {
+        h["subsets0"] = s.pick(bal); // OSMAPOSL::set_up calls error() for unbalanced subsets
+        h["n_sub0"] = int(s.range(1, 2));
+      }
+    if (hist == HIST_SECOND_RUN || hist == HIST_SHARED_OBJECTIVE)
+      {
+        h["k_all"] = size > 75; // thorough tier: every interruption point; quick tier: a sample of two
+        h["k_pick"] = std::vector<int>{ int(s.range(0, 35)), int(s.range(0, 35)) };
+      }
+    c["h"] = h;
+  }
   return c;
 }
 
